@@ -59,6 +59,7 @@ def weighted_dag(ctx, name='w'):
     nz = [[G.T(sym[i][j] != 0) if i != j else False for j in range(p)] for i in range(p)]
     e.assume(G.Z(G.acyclic(nz)))
     _apply_fix(e, sym, ctx.params)
+    e._ensure_model()       # an infeasible cube (e.g. a cyclic combination of fixed pairs) ends here
     rows = [[0.0] * p for _ in range(p)]
     pat = [[0] * p for _ in range(p)]
     for i in range(p):
@@ -84,6 +85,7 @@ def binary_pdag(ctx, name='b'):
     dirm = [[G.directed(nz, i, j) if i != j else False for j in range(p)] for i in range(p)]
     e.assume(G.Z(G.acyclic(dirm)))
     _apply_fix(e, sym, ctx.params)
+    e._ensure_model()
     pat = [[0] * p for _ in range(p)]
     for i in range(p):
         for j in range(p):
